@@ -24,6 +24,14 @@ pub enum HeaderEdit {
     Garbage { line: usize, hex: String },
     /// delete the first line
     DropVersionLine,
+    /// upper-case the hex digits of the hash (a different string; the hash is written in lower case)
+    UppercaseHash,
+    /// append text to the end of the hash line (before the line break): not the hash any more
+    AppendToHashLine { text: String },
+    /// append text to the end of the version line
+    AppendToVersionLine { text: String },
+    /// upper-case the words of the version line
+    UppercaseVersionLine,
 }
 
 #[derive(Clone, Debug, Serialize, Deserialize, PartialEq)]
@@ -135,6 +143,35 @@ pub fn apply_header_edit(bytes: &[u8], edit: &HeaderEdit) -> Vec<u8> {
         }
         HeaderEdit::DropVersionLine => {
             l1.clear();
+        }
+        HeaderEdit::UppercaseHash => {
+            let start = 9.min(l2.len());
+            for b in l2[start..].iter_mut() {
+                b.make_ascii_uppercase();
+            }
+        }
+        HeaderEdit::AppendToHashLine { text } => {
+            let had_nl = l2.last() == Some(&b'\n');
+            if had_nl {
+                l2.pop();
+            }
+            l2.extend_from_slice(text.as_bytes());
+            if had_nl {
+                l2.push(b'\n');
+            }
+        }
+        HeaderEdit::AppendToVersionLine { text } => {
+            let had_nl = l1.last() == Some(&b'\n');
+            if had_nl {
+                l1.pop();
+            }
+            l1.extend_from_slice(text.as_bytes());
+            if had_nl {
+                l1.push(b'\n');
+            }
+        }
+        HeaderEdit::UppercaseVersionLine => {
+            l1.make_ascii_uppercase();
         }
     }
     let mut out = l1;
